@@ -429,15 +429,23 @@ def run(R):
         b = tonic.body(re.compile(r'grpc_timeout::ResponseFuture<F> as .*Future>::poll$'))
         R.saw(b)
         polls = b.calls(pat='Future::poll')
-        inner = [(bb, t) for bb, t in polls if mentions_field(b.origin(t['args'][0]), 'inner')]
-        sleep = [(bb, t) for bb, t in polls if mentions_field(b.origin(t['args'][0]), 'sleep')]
+        # by what is polled, not by field name: the wrapped future (a type parameter) and the timer (tokio's Sleep)
+        is_timer = lambda t_: bool(re.search(r'(^|::)Sleep$', t_.get('self_ty') or ''))
+        is_inner = lambda t_: bool(re.match(r'^\w+$', t_.get('self_ty') or ''))
+        inner = [(bb, t) for bb, t in polls if is_inner(t)]
+        sleep = [(bb, t) for bb, t in polls if is_timer(t)]
         R.check(len(inner) == 1 and len(sleep) == 1, 'C09.R5', 'two-polls', site(b), 'inner polls: %d, sleep polls: %d' % (len(inner), len(sleep)))
         if len(inner) == 1 and len(sleep) == 1:
             ib, sb = inner[0][0], sleep[0][0]
             meta = {}
             rows = mirlib.path_rows(b, meta=meta)
             terms = lambda: meta.get('__terms__', {})
-            is_poll_of = lambda t_, fld: t_ is not None and t_[0] == 'discr' and is_call(strip_refs(t_[1]), name='poll') and mentions_field(strip_refs(t_[1])[2][0], fld)
+            kind_of = {'inner': is_inner, 'sleep': is_timer}
+            is_poll_term = lambda y, fld: is_call(y, name='poll') and len(y) > 4 and isinstance(y[4], dict) and kind_of[fld](y[4])
+            is_poll_of = lambda t_, fld: t_ is not None and t_[0] == 'discr' and is_poll_term(strip_refs(t_[1]), fld)
+            timer_recv = strip_refs(b.origin(sleep[0][1]['args'][0]))
+            # the Option the polled timer is the Some payload of
+            timer_opt = [mirlib.deep_strip(x[1]) for x in find_terms(timer_recv, lambda x: x and x[0] == 'variant' and x[2] == 'Some')]
 
             def builds_timeout(t_):
                 if term_contains(t_, lambda x: x and x[0] == 'agg' and (x[1].get('adt') or '').endswith('TimeoutExpired')):
@@ -452,7 +460,9 @@ def run(R):
                 vw = cons_view(cons, meta)
                 iv = view_get(vw, lambda k: is_poll_of(terms().get(k), 'inner'))
                 sv = view_get(vw, lambda k: is_poll_of(terms().get(k), 'sleep'))
-                so = view_get(vw, lambda k: terms().get(k) is not None and terms()[k][0] == 'discr' and not is_call(strip_refs(terms()[k][1]), name='poll') and mentions_field(terms()[k], 'sleep') and k in meta and any(n_ == 'Some' for _, n_ in meta[k]))
+                # the Option the timer lives in: the polled timer is the Some payload of this subject
+                so = view_get(vw, lambda k: terms().get(k) is not None and terms()[k][0] == 'discr' and not is_call(strip_refs(terms()[k][1]), name='poll') and k in meta and any(n_ == 'Some' for _, n_ in meta[k])
+                              and mirlib.deep_strip(terms()[k][1]) in timer_opt)
                 val = mirlib.simplify(b.ret_on_path(path))
                 st = site(b, path[-1])
                 pos = {x: i_ for i_, x in enumerate(path)}
@@ -461,12 +471,12 @@ def run(R):
                     R.check(iv == 'Pending', 'C09.R5', 'sleep-only-when-inner-pending', st, 'the sleep is polled only after the inner future returned Pending (inner: %r)' % iv)
                 if iv == 'Ready':
                     nin += 1
-                    okr = term_contains(val, lambda y: is_call(y, name='poll') and mentions_field(y[2][0], 'inner')) and not builds_timeout(val) and not term_contains(val, lambda y: is_call(y, name='poll') and mentions_field(y[2][0], 'sleep'))
+                    okr = term_contains(val, lambda y: is_poll_term(y, 'inner')) and not builds_timeout(val) and not term_contains(val, lambda y: is_poll_term(y, 'sleep'))
                     R.check(okr, 'C09.R5', 'inner-ready-returned', st, 'with the inner future Ready its result is what is returned: %s' % show(val)[:100])
                 elif builds_timeout(val):
                     nte += 1
                     direct = term_contains(val, lambda x: x and x[0] == 'agg' and (x[1].get('adt') or '').endswith('TimeoutExpired'))
-                    via_map = is_call(strip_refs(val), name='map') and term_contains(strip_refs(val)[2][0], lambda y: is_call(y, name='poll') and mentions_field(y[2][0], 'sleep'))
+                    via_map = is_call(strip_refs(val), name='map') and term_contains(strip_refs(val)[2][0], lambda y: is_poll_term(y, 'sleep'))
                     R.check(iv == 'Pending' and ((direct and sv == 'Ready') or via_map), 'C09.R5', 'timeout-behind-sleep-ready', st,
                             'Err(TimeoutExpired) only with the inner future Pending (%r) and the sleep Ready (%r / Poll::map over the sleep poll: %r)' % (iv, sv, via_map))
                 elif val[0] == 'agg' and val[1].get('variant') == 'Pending':
@@ -485,10 +495,15 @@ def run(R):
         R.saw(b)
         dcs = [(bb, t) for bb, t in b.calls(name='downcast_ref') if any('TimeoutExpired' in g for g in t.get('ga', []))]
         R.check(len(dcs) == 1, 'C09.R6', 'downcast-timeout', site(b), 'downcast_ref::<TimeoutExpired> sites: %d' % len(dcs))
-        cans = b.calls(pat='Status::cancelled')
+        # Status::cancelled(msg), or Status::new(Code::Cancelled, msg)
+        cans = [(bb, t, t['args'][0]) for bb, t in b.calls(pat='Status::cancelled')]
+        for bb, t in b.calls(pat='status::Status::new'):
+            c0 = strip_refs(mirlib.simplify(b.origin(t['args'][0])))
+            if c0 and c0[0] == 'agg' and c0[1].get('variant') == 'Cancelled':
+                cans.append((bb, t, t['args'][1]))
         okc = False
-        for bb, t in cans:
-            a = b.origin(t['args'][0])
+        for bb, t, a_op in cans:
+            a = b.origin(a_op)
             if mentions_call(a, name='to_string') and term_contains(a, lambda x: is_call(x, name='downcast_ref')):
                 okc = True
                 gs = b.edge_guards(bb)
